@@ -60,22 +60,23 @@ def job_seq_run():
     return obs
 
 
-RPTR_PD = [('R-ptr getId', r'worker->getId\(\)', 'wid', 3),
-           ('R-ptr In.Lock', r'threadsMutexesIn_\[([^\]]+)\]->Lock\(\)', r'Mutex_Lock(&In[\1])', 1),
-           ('R-ptr In.Unlock', r'threadsMutexesIn_\[([^\]]+)\]->Unlock\(\)', r'Mutex_Unlock(&In[\1])', 3),
-           ('R-ptr reader.Lock', r'traj_readerMutex_\.Lock\(\)', 'Mutex_Lock(&traj_readerMutex_)', 1),
-           ('R-ptr reader.Unlock', r'traj_readerMutex_\.Unlock\(\)', 'Mutex_Unlock(&traj_readerMutex_)', 3),
-           ('R-ptr NextFrame', r'traj_reader_->NextFrame\(worker->top_\)', 'NextFrame(wid)', 1),
-           ('R-ptr Apply', r'worker->map_->Apply\(\)', 'Apply(wid)', 1),
-           ('R-ptr Eval2', r'worker->EvalConfiguration\(&worker->top_cg_,\s*&worker->top_\)', 'Eval(wid)', 1),
-           ('R-ptr Eval1', r'worker->EvalConfiguration\(&worker->top_\)', 'Eval(wid)', 1)]
-RPTR_RUN = [('R-ptr ProcessData', r'app_->ProcessData\(this\)', 'ProcessData(wid)', 1),
-            ('R-ptr Sync', r'app_->SynchronizeThreads\(\)', 'SynchronizeThreads()', 1),
-            ('R-ptr getId', r'(?<![>\w])getId\(\)', 'wid', 1),
-            ('R-ptr Out.Lock', r'app_->threadsMutexesOut_\[([^\]]+)\]->Lock\(\)', r'Mutex_Lock(&Out[\1])', 1),
-            ('R-ptr Out.Unlock', r'app_->threadsMutexesOut_\[([^\]]+)\]->Unlock\(\)', r'Mutex_Unlock(&Out[\1])', 1),
-            ('R-ptr Merge', r'app_->MergeWorker\(this\)', 'MergeWorker(wid)', 1),
-            ('R-ptr nthreads', r'app_->nthreads_', 'nthreads_', 1)]
+# counts are 'at least one' (None): after all rules NO pointer expression may be left (checked below), which is the real drift guard
+RPTR_PD = [('R-ptr getId', r'worker->getId\(\)', 'wid', None),
+           ('R-ptr In.Lock', r'threadsMutexesIn_\[([^\]]+)\]->Lock\(\)', r'Mutex_Lock(&In[\1])', None),
+           ('R-ptr In.Unlock', r'threadsMutexesIn_\[([^\]]+)\]->Unlock\(\)', r'Mutex_Unlock(&In[\1])', None),
+           ('R-ptr reader.Lock', r'traj_readerMutex_\.Lock\(\)', 'Mutex_Lock(&traj_readerMutex_)', None),
+           ('R-ptr reader.Unlock', r'traj_readerMutex_\.Unlock\(\)', 'Mutex_Unlock(&traj_readerMutex_)', None),
+           ('R-ptr NextFrame', r'traj_reader_->NextFrame\(worker->top_\)', 'NextFrame(wid)', None),
+           ('R-ptr Apply', r'worker->map_->Apply\(\)', 'Apply(wid)', None),
+           ('R-ptr Eval2', r'worker->EvalConfiguration\(&worker->top_cg_,\s*&worker->top_\)', 'Eval(wid)', None),
+           ('R-ptr Eval1', r'worker->EvalConfiguration\(&worker->top_\)', 'Eval(wid)', None)]
+RPTR_RUN = [('R-ptr ProcessData', r'app_->ProcessData\(this\)', 'ProcessData(wid)', None),
+            ('R-ptr Sync', r'app_->SynchronizeThreads\(\)', 'SynchronizeThreads()', None),
+            ('R-ptr getId', r'(?<![>\w])getId\(\)', 'wid', None),
+            ('R-ptr Out.Lock', r'app_->threadsMutexesOut_\[([^\]]+)\]->Lock\(\)', r'Mutex_Lock(&Out[\1])', None),
+            ('R-ptr Out.Unlock', r'app_->threadsMutexesOut_\[([^\]]+)\]->Unlock\(\)', r'Mutex_Unlock(&Out[\1])', None),
+            ('R-ptr Merge', r'app_->MergeWorker\(this\)', 'MergeWorker(wid)', None),
+            ('R-ptr nthreads', r'app_->nthreads_', 'nthreads_', None)]
 
 
 def job_conc(nt, nf, sync, budget=None):
